@@ -20,15 +20,28 @@ VARIABLES st,        \* st[k] \in {"idle","waiting","ok","ctx"}  user pings
 vars == <<st, reg, cancelled, got, loop, n, hist>>
 View == <<st, reg, cancelled, got, loop, n>>
 
+Held == \E j \in Pings : st[j] = "held"
 Step(s) == /\ n < MaxSteps /\ n' = n + 1 /\ hist' = Append(hist, s)
 
 \* Conn.Ping: register, write, then wait
 StartPing(k) ==
-  /\ st[k] = "idle" /\ loop # "dead"
+  /\ st[k] = "idle" /\ loop # "dead" /\ ~Held
   /\ st' = [st EXCEPT ![k] = "waiting"] /\ reg' = reg \cup {k}
   /\ Step([op |-> "ping", k |-> k])
   /\ UNCHANGED <<cancelled, got, loop>>
 
+\* fault: the transport reports the write of ping k as failed after the bytes have left (the peer may answer it).
+\* Conn.Ping is inside Send meanwhile ("held"); when Send returns the error, Ping returns it and unregisters.
+StartPingHeld(k) ==
+  /\ st[k] = "idle" /\ loop = "idle" /\ n + 2 <= MaxSteps /\ ~\E j \in Pings : st[j] = "held"
+  /\ st' = [st EXCEPT ![k] = "held"] /\ reg' = reg \cup {k}
+  /\ n' = n + 2 /\ hist' = hist \o <<[op |-> "wfail", on |-> TRUE], [op |-> "ping", k |-> k]>>
+  /\ UNCHANGED <<cancelled, got, loop>>
+ReleaseFail(k) ==
+  /\ st[k] = "held"
+  /\ st' = [st EXCEPT ![k] = "werr"] /\ reg' = reg \ {k}
+  /\ Step([op |-> "wfail", on |-> FALSE])
+  /\ UNCHANGED <<cancelled, got, loop>>
 \* handlePong: close + delete when registered; the waiter's select then returns nil
 Pong(id) ==
   /\ loop # "dead"
@@ -37,19 +50,19 @@ Pong(id) ==
   /\ IF id \in reg
      THEN /\ reg' = reg \ {id}
           /\ IF id = 0 THEN loop' = "idle" /\ UNCHANGED <<st, got>>
-             ELSE /\ st' = [st EXCEPT ![id] = "ok"] /\ got' = [got EXCEPT ![id] = TRUE] /\ UNCHANGED loop
+             ELSE /\ st' = [st EXCEPT ![id] = IF @ = "held" THEN "held" ELSE "ok"] /\ got' = [got EXCEPT ![id] = TRUE] /\ UNCHANGED loop
      ELSE UNCHANGED <<st, reg, got, loop>>
   /\ UNCHANGED cancelled
 
 \* a pong carrying a foreign ping id whose msg_id field names the ping request of k (or of the loop, k = 0)
 PongForeignAnswering(k) ==
-  /\ loop # "dead" /\ k \in reg
+  /\ loop # "dead" /\ k \in reg /\ ~Held
   /\ Step([op |-> "srv", msg |-> [t |-> "pong", foreign |-> 2, msgof |-> k]])
   /\ UNCHANGED <<st, reg, cancelled, got, loop>>
 
 \* the same pong twice in one container (the second finds the id no longer registered)
 PongTwice(id) ==
-  /\ loop # "dead" /\ id \in Pings
+  /\ loop # "dead" /\ id \in Pings /\ ~Held
   /\ Step([op |-> "srv", msg |-> [t |-> "container", msgs |-> <<[t |-> "pong", of |-> id], [t |-> "result", foreign |-> 7, body |-> [t |-> "pong", of |-> id]]>>]])
   /\ IF id \in reg
      THEN /\ reg' = reg \ {id} /\ st' = [st EXCEPT ![id] = "ok"] /\ got' = [got EXCEPT ![id] = TRUE]
@@ -58,7 +71,7 @@ PongTwice(id) ==
 
 \* a pong wrapped in an rpc_result (handleResult routes it to handlePong)
 PongInResult(id) ==
-  /\ loop # "dead" /\ id \in Pings
+  /\ loop # "dead" /\ id \in Pings /\ ~Held
   /\ Step([op |-> "srv", msg |-> [t |-> "result", foreign |-> 7, body |-> [t |-> "pong", of |-> id]]])
   /\ IF id \in reg
      THEN /\ reg' = reg \ {id} /\ st' = [st EXCEPT ![id] = "ok"] /\ got' = [got EXCEPT ![id] = TRUE]
@@ -66,7 +79,7 @@ PongInResult(id) ==
   /\ UNCHANGED <<cancelled, loop>>
 
 Cancel(k) ==
-  /\ st[k] \in {"waiting", "ok"} /\ k \notin cancelled
+  /\ st[k] \in {"waiting", "ok"} /\ k \notin cancelled /\ ~Held
   /\ cancelled' = cancelled \cup {k}
   /\ st' = [st EXCEPT ![k] = IF @ = "waiting" THEN "ctx" ELSE @]
   /\ reg' = reg \ {k}
@@ -75,7 +88,7 @@ Cancel(k) ==
 
 \* keep-alive loop: ticker fires, ping_delay_disconnect is written, loop waits with the ping timeout
 LoopTick ==
-  /\ loop = "idle"
+  /\ loop = "idle" /\ ~Held
   /\ loop' = "waiting" /\ reg' = reg \cup {0}
   /\ Step([op |-> "tick", ms |-> 60000])
   /\ UNCHANGED <<st, cancelled, got>>
@@ -89,7 +102,7 @@ LoopTimeout ==
 
 Init == /\ st = [k \in Pings |-> "idle"] /\ reg = {} /\ cancelled = {} /\ got = [k \in Pings |-> FALSE]
         /\ loop = "idle" /\ n = 0 /\ hist = <<>>
-Next == \/ \E k \in Pings : StartPing(k) \/ Cancel(k) \/ PongInResult(k) \/ PongTwice(k)
+Next == \/ \E k \in Pings : StartPing(k) \/ Cancel(k) \/ PongInResult(k) \/ PongTwice(k) \/ StartPingHeld(k) \/ ReleaseFail(k)
         \/ \E id \in PongIds : Pong(id)
         \/ \E k \in Pings \cup {0} : PongForeignAnswering(k)
         \/ LoopTick \/ LoopTimeout
@@ -97,7 +110,7 @@ Next == \/ \E k \in Pings : StartPing(k) \/ Cancel(k) \/ PongInResult(k) \/ Pong
 \* C43 on the model
 OkOnlyAfterOwnPong == \A k \in Pings : st[k] = "ok" => got[k]
 CtxOnlyAfterCancel == \A k \in Pings : st[k] = "ctx" => k \in cancelled
-NoLeak == \A k \in Pings : k \in reg => st[k] = "waiting"
+NoLeak == \A k \in Pings : k \in reg => st[k] \in {"waiting", "held"}
 
 Case == [cfg |-> "ping", salt0 |-> 11, pingInterval |-> 60000, pingTimeout |-> 300, steps |-> hist]
 Dump == (n = SimDepth) => PrintT(ToJson(Case))
